@@ -2,10 +2,12 @@ T = "GeomV.C04."
 # T1: one module per tied Go function, so that a broken tie is reported as that obligation
 TIES = ["PointEquals", "NewBounds", "NewBoundsPoint", "Copy", "Empty", "ExtendPoint", "ExtendPoints", "ExtendPointss",
         "Extend", "Overlaps", "Within", "Intersection", "Area", "Centroid",
-        "PointBounds", "MultiPointBounds", "LineStringBounds", "MultiLineStringBounds", "PolygonBounds", "MultiPolygonBounds", "Lens"]
+        "PointBounds", "MultiPointBounds", "LineStringBounds", "MultiLineStringBounds", "PolygonBounds", "MultiPolygonBounds", "Lens",
+        "PointsSimple", "PointsMultiLineString", "PointsPolygon", "PointsMultiPolygon"]
 TIE_MODULES = [T + "Ties." + n for n in TIES]
 SRC_DEPS = {"Overlaps": ["Overlaps"], "Intersection": ["Intersection"], "Extend": ["Extend"],
-            "Basic": ["Empty", "Copy", "NewBounds", "NewBoundsPoint", "ExtendPoints"]}
+            "Basic": ["Empty", "Copy", "NewBounds", "NewBoundsPoint", "ExtendPoints"],
+            "Points": ["PointsSimple", "PointsMultiLineString", "PointsPolygon", "PointsMultiPolygon", "Lens"]}
 SRC_MODULES = [T + "Src." + n for n in SRC_DEPS]
 CFG = {
     "id": "C04",
@@ -33,14 +35,19 @@ CFG = {
         "C04_tie_Polygon_Bounds", "C04_tie_MultiPolygon_Bounds",
         "C04_tie_Point_Len", "C04_tie_MultiPoint_Len", "C04_tie_LineString_Len", "C04_tie_MultiLineString_Len",
         "C04_tie_Polygon_Len", "C04_tie_MultiPolygon_Len", "C04_tie_Bounds_Len",
+        # … and the Points() closures rendered from the source (loops with receiver-derived fuel) = the model's state machines
+        "C04_tie_Point_Points", "C04_tie_MultiPoint_Points", "C04_tie_LineString_Points", "C04_tie_MultiLineString_Points",
+        "C04_tie_Polygon_Points", "C04_tie_MultiPolygon_Points",
         # the box theorems restated for the regenerated definitions
         "C04_overlaps_src", "C04_intersection_src", "C04_extend_join_src", "C04_extend_laws_src", "C04_empty_src",
         "C04_copy_src", "C04_newBounds_src", "C04_extendPoints_src",
+        "C04_points_src_MultiPoint", "C04_points_src_LineString", "C04_points_src_MultiLineString",
+        "C04_points_src_Polygon", "C04_points_src_MultiPolygon",
     ]],
     "trusted_base": [
         "Lean 4.33.0 kernel; axioms of every theorem printed by #print axioms must be within {propext, Classical.choice, Quot.sound}",
         "T1: harness/cmd/c04/extract.go (go/ast, ~600 lines, translation table in its header) regenerates lean/GeomV/C04/Gen.lean from "
-        "bounds.go/point.go/multipoint.go/linestring.go/multilinestring.go/polygon.go/multipolygon.go of the tree under test on every run; Ties/*.lean prove Gen.f = Model.f by rfl for 27 functions (bounds.go box functions, Point.Equals, Bounds()/Len() of the non-collection types); a function "
+        "bounds.go/point.go/multipoint.go/linestring.go/multilinestring.go/polygon.go/multipolygon.go of the tree under test on every run; Ties/*.lean prove Gen.f = Model.f for 33 functions (by rfl: bounds.go box functions, Point.Equals, Bounds()/Len() of the non-collection types; by proof: the Points() closures of Point/MultiPoint/LineString/MultiLineString/Polygon/MultiPolygon rendered with whileFuel loops); a function "
         "outside the translatable subset makes Gen.lean fail to elaborate and is reported by name",
         "model lean/GeomV/C04/Model.lean (bounds.go; Len/Points/Bounds of the eight types, closures as state machines with faulting "
         "indexing) is tied to /repo by the correspondence run on every check: Len, the drained Points() sequence (bit-exact) or the "
